@@ -74,7 +74,10 @@ Record otables := {
   ot_liq : list (N * N);
   ot_hdr : list (header * N);
   ot_melpow : list ((N * N * N * N) * N);
-  ot_ed : list ((N * N * list N) * bool)
+  ot_ed : list ((N * N * list N) * bool);
+  (* the wallet's signature covenants: (new-style?, public key bytes, covenant bytes as built by
+     Covenant::std_ed25519_pk_new / _legacy) - ties the op lists of STF/Proofs/StdCovenant.v to the code *)
+  ot_std : list (bool * (list N * list N))
 }.
 
 Definition look {A} (eqb : A -> A -> bool) (k : A) (l : list (A * N)) (dflt : N) : N :=
